@@ -56,6 +56,7 @@ class Fn:
         self.structs = spec.get("structs", {})      # struct/variant path -> (Gallina constructor, [field order])
         self.uses_fuel = False
         self.gensym = 0
+        self.handles = {}                           # local file-handle variable -> Gallina text of the path it was opened on
 
     def fresh(self, base):
         self.gensym += 1
@@ -257,6 +258,11 @@ class Fn:
             return "true" if e[1] else "false"
         if k == "path":
             return self.path(e[1], env)
+        if k == "str":
+            lit = self.spec.get("strings", {}).get(e[1])
+            if lit is None:
+                raise Unsupported("string literal %r" % e[1])
+            return lit
         if k == "tuple":
             return "(" + ", ".join(self.ex(x, env) for x in e[1]) + ")"
         if k == "array":
@@ -331,7 +337,7 @@ class Fn:
             raise Unsupported("call of %s" % (f,))
         if k == "mcall":
             recv, name, args = e[1], e[2], e[3]
-            if name in ("copied", "cloned", "clone", "to_owned", "iter", "as_ref", "collect", "to_path_buf", "to_string_lossy", "ok") and not args:
+            if name in ("copied", "cloned", "clone", "to_owned", "iter", "as_ref", "collect", "to_path_buf", "to_string_lossy", "ok", "as_os_str") and not args:
                 return self.ex(recv, env)
             if name == "chain" and len(args) == 1:
                 return "(%s ++ %s)" % (self.ex(recv, env), self.ex(args[0], env))
@@ -456,6 +462,10 @@ class Fn:
             if ctx.cont is None:
                 raise Unsupported("continue outside a loop")
             return ctx.cont(env)
+        if self.spec.get("effects") and ctx.val is not None:
+            teff = self.effect_of(("expr", e, False), env)
+            if teff is not None:
+                return ctx.val("effs ++ [%s]" % teff)
         if ctx.val is None:
             # value of a statement-position expression is dropped
             if ctx.fall is None:
@@ -539,12 +549,25 @@ class Fn:
             e = s[3]
         if e is None:
             return None
-        if e[0] == "try":
+        while e[0] == "try":
             e = e[1]
         if e[0] == "call" and e[1][0] == "path":
             name = "::".join(e[1][1])
             if name in table:
                 return self.apply(table[name], [self.ex(a, env) for a in e[2]])
+        # <File::open(x)?>.sync_all()  and  <handle var>.write_all(..) / .sync_all()
+        if e[0] == "mcall":
+            recv = e[1]
+            while recv[0] == "try":
+                recv = recv[1]
+            if recv[0] == "call" and recv[1][0] == "path":
+                key = "::".join(recv[1][1]) + "()." + e[2]
+                if key in table:
+                    return self.apply(table[key], [self.ex(a, env) for a in recv[2]])
+            if recv[0] == "path" and len(recv[1]) == 1 and recv[1][0] in self.handles:
+                key = "<handle>." + e[2]
+                if key in table:
+                    return self.apply(table[key], [self.handles[recv[1][0]]])
         if e[0] == "mcall" and e[1][0] == "path" and len(e[1][1]) == 1:
             key = e[1][1][0] + "." + e[2]
             if key in table:
@@ -626,6 +649,20 @@ class Fn:
 
         def after(env_):
             return self.stmts(rest, tl, env_, ctx)
+        if k == "let" and s[1][0] == "pbind" and s[3] is not None and self.spec.get("opens"):
+            e0 = s[3]
+            while e0[0] == "try":
+                e0 = e0[1]
+            if e0[0] == "call" and e0[1][0] == "path" and "::".join(e0[1][1]) in self.spec["opens"] and len(e0[2]) == 1:
+                tmpl = self.spec["opens"]["::".join(e0[1][1])]
+                ptxt = self.ex(e0[2][0], env)
+                self.handles[s[1][1]] = ptxt
+                rest_txt = after(dict(env, **{s[1][1]: "File"}))
+                return ("let effs := effs ++ [%s] in %s" % (self.apply(tmpl, [ptxt]), rest_txt)) if tmpl else rest_txt
+        if k == "expr" and s[1][0] == "mcall" and s[1][1][0] == "path" and len(s[1][1][1]) == 1 and (s[1][1][1][0] + "." + s[1][2]) in self.spec.get("updates", {}):
+            v = s[1][1][1][0]
+            tmpl = self.spec["updates"][v + "." + s[1][2]]
+            return "let %s := %s in %s" % (self.var(v), self.apply(tmpl, [self.var(v)] + [self.ex(a, env) for a in s[1][3]]), after(env))
         eff = self.effect_of(s, env)
         if eff is not None:
             return "let effs := effs ++ [%s] in %s" % (eff, after(env))
@@ -979,6 +1016,17 @@ def functions():
         return translate_fn(src, "apply", None, spec, "g_apply", "(rel : K) (act : Reconcile.action) (a b : gmap K D)", "list eff")
     out.append(("apply", "src/bin/copia/bidir.rs apply", None, t_apply))
 
+    def t_copy_atomic():
+        src = read("src/bin/copia/bidir.rs")
+        spec = dict(signature=[("src", "Path"), ("dst", "Path")],
+                    calls={".parent": ("parent_of {0}", "Option<Path>"), "PathBuf::from": ("{0}", "Path")},
+                    effects={"std::fs::create_dir_all": "SMkdirAll {0}", "std::fs::copy": "SCopy {0} {1}",
+                             "std::fs::File::open().sync_all": "SFsync {0}", "std::fs::rename": "SRename {0} {1}"},
+                    updates={"tmp.push": "with_suffix {0} {1}"}, strings={".copia-tmp": "SufStaging"},
+                    ok=lambda s_: "effs", prologue="let effs := [] in ")
+        return translate_fn(src, "copy_atomic", None, spec, "g_copy_atomic", "(src dst : pexpr)", "list sys")
+    out.append(("copy_atomic", "src/bin/copia/bidir.rs copy_atomic", None, t_copy_atomic))
+
     def t_cas():
         src = read("src/bin/copia/wire.rs")
         check_enum(src, "Cas", ["Commit", "Conflict"])
@@ -1093,6 +1141,7 @@ GROUPS = {
     "Reconcile": ("Model.Reconcile", True, ["same", "reconcile_path", "reconcile"]),
     "Cas": ("", True, ["cas_decide"]),
     "BisyncApply": ("", "bisync", ["apply"]),
+    "BisyncSys": ("", "bisyncsys", ["copy_atomic"]),
     "Archive": ("Model.Archive", "archive", ["archive_load"]),
     "Plan": ("Model.Glob Model.Plan", False, ["needs_transfer", "glob_match", "is_excluded", "build_plan"]),
     "Protocol": ("Model.Checksum Model.Delta Model.Protocol", False, ["from_u8", "hvalidate"]),
@@ -1133,7 +1182,11 @@ def main():
         body = HEADER % (group, imports)
         if group == "Cas":
             body += "\nInductive g_cas := GCommit | GConflict.\n"
-        if digest == "bisync":
+        if digest == "bisyncsys":
+            body = ("(** GENERATED by tools/gen_logic.py from /repo's CURRENT source - do not edit.\n    bidir.rs `copy_atomic` as the list of file-system calls it makes, in order; Proofs/TieBisyncSys.v maps them onto\n"
+                    "    the steps of Model/BisyncSteps.v. *)\nFrom stdpp Require Import gmap.\nFrom Copia Require Import Model.Bisync Model.BisyncSys.\n\n"
+                    "Section WithPaths.\nContext {K : Type}.\nVariable parent_of : @pexpr K -> option (@pexpr K).\nNotation pexpr := (@pexpr K).\nNotation sys := (@sys K).\n\n" + "\n".join(texts) + "End WithPaths.\n")
+        elif digest == "bisync":
             body = ("(** GENERATED by tools/gen_logic.py from /repo's CURRENT source - do not edit.\n    bidir.rs `apply` as the LIST OF EFFECTS it performs, in order (copy_atomic, remove_file, the inserts/removes on the\n"
                     "    common state, the conflict counter); Proofs/TieBisyncApply.v proves that running these effects is Model/Bisync.v's [apply]. *)\n"
                     "From stdpp Require Import gmap.\nFrom Copia Require Import Model.Reconcile Model.Bisync Model.BisyncEffects.\n\n"
